@@ -1,5 +1,6 @@
 import MxModel.Proofs.ExecTrace
 import MxModel.Exec.Expr
+import MxModel.Proofs.ExprBind
 /-! Every formula of the concrete grammar compiles to a `Proper` behaviour, so `ProperEnv`
 holds for every environment the driver builds. -/
 namespace MxModel.Exec
